@@ -315,6 +315,10 @@ GOLDEN = [
         ["op", 2, [], ["get"]], ["op", 3, [], ["get"]], ["op", 2, [], ["set", "m", 2]], ["chdir", 3], ["op", 3, [], ["get"]],
         ["op", 2, [], ["get"]], ["enter", 40], ["op", 3, [], ["set", "n", [1]]], ["chdir", 0], ["op", 3, [], ["get"]], ["exit"],
         ["op", 2, [], ["get"]], ["op", 3, [], ["get"]]]},
+    # two spellings of one job document (symlinked prefix) written in one block: two buffer entries (known finding 4)
+    {"cap0": DEFAULT_CAP, "threads": True, "label": "golden-symlink-two-keys", "prog": [
+        ["open", 0, 1, PROV_GET_ABS], ["open", 1, 1, PROV_CTOR_SYMLINK], ["init", 0], ["enter", None], ["op", 0, [], ["set", "x", 1]],
+        ["op", 1, [], ["set", "y", 2]], ["op", 0, [], ["get"]], ["op", 1, [], ["get"]], ["exit"], ["op", 0, [], ["get"]], ["op", 1, [], ["get"]]]},
     {"cap0": DEFAULT_CAP, "threads": True, "label": "golden-provenance-symlink-unbuffered", "prog": [
         ["open", 0, 1, PROV_CTOR_SYMLINK], ["open", 1, 1, PROV_GET_REL], ["open", 2, 1, PROV_CTOR_DOTDOT], ["op", 0, [], ["set", "a", 1]],
         ["chdir", 1], ["op", 1, [], ["set", "b", 2]], ["op", 2, [], ["get"]], ["op", 0, [], ["get"]], ["chdir", 3], ["op", 2, [], ["del", "a"]],
@@ -399,10 +403,6 @@ def gen_inputs(tier, rng):
     nbase = 80 if tier == "quick" else 1500
 
     def add(prog, label, threads=True, cap0=DEFAULT_CAP):
-        if any(i[0] == "enter" for i in prog):
-            # two spellings of one file through a symlinked prefix get two buffer entries on the unchanged tree
-            # (reported to the coordinator, not filed): that provenance is exercised outside buffered blocks only
-            prog = [i[:3] + [PROV_CTOR_DOTDOT] if i[0] == "open" and len(i) > 3 and i[3] == PROV_CTOR_SYMLINK else i for i in prog]
         descs.append({"cap0": cap0, "threads": threads, "label": label, "prog": _typed_prog(prog)})
 
     for b in range(nbase):
